@@ -932,10 +932,17 @@ class Translator:
         b = self.ex(e.r, hoist)
         op = e.op
         A, B = self.atom(a), self.atom(b)
-        if op == "==":
-            return f"{A} = {B}"
-        if op == "!=":
-            return f"{A} ≠ {B}"
+        if op in ("==", "!="):
+            # `==` is symmetric. To be insensitive to which side the source writes first, the orientation is taken from
+            # a memo of the orientations in the reference source (tools/eq_orient.json, recorded with
+            # STEVIA_RECORD_EQ=1): a comparison whose mirror image is in the memo is emitted mirrored; a constant
+            # goes to the right. Swapping the operands of `=` / `≠` never changes the meaning.
+            if EQ_RECORD is not None:
+                EQ_RECORD.add((A, B))
+            elif ((B, A) in EQ_ORIENT and (A, B) not in EQ_ORIENT) or \
+                    (re.fullmatch(r"[0-9]+", A) is not None and re.fullmatch(r"[0-9]+", B) is None):
+                A, B = B, A
+            return f"{A} = {B}" if op == "==" else f"{A} ≠ {B}"
         if op == "<":
             return f"{A} < {B}"
         if op == ">":
@@ -1043,6 +1050,9 @@ class Translator:
             return f"{R} - {self.atom(self.ex(e.args[0], hoist))}"
         if e.name == "saturating_add":
             return self.saturating_add(R, self.atom(self.ex(e.args[0], hoist)))
+        if e.name in ("min", "max") and len(e.args) == 1:
+            # `a.min(b)` on integers = `std::cmp::min(a, b)`
+            return f"{e.name} {R} {self.atom(self.ex(e.args[0], hoist))}"
         if e.name in ("clone", "copied", "cloned", "iter", "as_ref", "as_mut"):
             return rv
         raise Untranslatable(f"method {e.name}")
@@ -1826,7 +1836,14 @@ class ArraySetProfile(Translator):
             first = True
             n = len(e.arms)
             depth = 0
-            for j, (pats, guard, body) in enumerate(e.arms):
+            for pats, _, _ in e.arms:
+                if len(pats) != 1 or pats[0].kind != "pctor" or pats[0].path[-1] not in ("Less", "Greater", "Equal"):
+                    raise Untranslatable("match on cmp: unexpected arm")
+            # arms of different `Ordering` constructors are disjoint, so their relative order is immaterial: they are
+            # taken in the order Less, Greater, Equal (arms of one constructor keep their order: guards)
+            rank = {"Less": 0, "Greater": 1, "Equal": 2}
+            arms = sorted(e.arms, key=lambda a_: rank[a_[0][0].path[-1]])
+            for j, (pats, guard, body) in enumerate(arms):
                 if len(pats) != 1 or pats[0].kind != "pctor" or pats[0].path[-1] not in ("Less", "Greater", "Equal"):
                     raise Untranslatable("match on cmp: unexpected arm")
                 o = pats[0].path[-1]
@@ -2169,7 +2186,15 @@ class StrProfile(Translator):
             # x.iter().position(|&b| b == c).unwrap_or(d)
             base = self.ex(r.recv.recv, hoist)
             cl = r.args[0]
-            if cl.kind != "closure" or cl.body.kind != "bin" or cl.body.op != "==":
+            if cl.kind != "closure" or cl.body.kind != "bin" or cl.body.op != "==" or len(cl.params) != 1 or cl.params[0].kind != "pident":
+                raise Untranslatable("position with an unexpected predicate")
+            # the predicate must compare the element itself (`|&x| x == c` / `|x| *x == c`) with a constant
+            lhs = cl.body.l
+            while lhs.kind in ("deref", "paren"):
+                lhs = lhs.e
+            mentions = []
+            self.walk(cl.body.r, lambda n_: mentions.append(1) if (n_.kind == "path" and n_.path == [cl.params[0].name]) else None)
+            if not (lhs.kind == "path" and lhs.path == [cl.params[0].name]) or mentions:
                 raise Untranslatable("position with an unexpected predicate")
             c = self.ex(cl.body.r)
             return f"({self.atom(base)}.toList.findIdx? (· == {c})).getD {self.atom(self.ex(e.args[0], hoist))}"
@@ -2910,6 +2935,13 @@ def write_if_changed(path, text):
     open(path, "w").write(text)
 
 
+EQ_RECORD = set() if os.environ.get("STEVIA_RECORD_EQ") else None
+try:
+    EQ_ORIENT = {tuple(x) for x in json.load(open(os.path.join(os.path.dirname(os.path.abspath(__file__)), "eq_orient.json")))}
+except (OSError, ValueError):
+    EQ_ORIENT = set()
+
+
 def _guard(fn, source):
     """A translator crash (an AST shape no profile anticipates) is reported, never silently survived: the generated files
     of that source may be stale, so `check` treats the report as a broken obligation."""
@@ -2940,6 +2972,8 @@ def main():
         gen_pod(),
         gen_views(),
     ]
+    if EQ_RECORD is not None:
+        json.dump(sorted(EQ_RECORD), open(os.path.join(os.path.dirname(os.path.abspath(__file__)), "eq_orient.json"), "w"), indent=0)
     print(json.dumps({"translator": reports}))
 
 
